@@ -121,6 +121,14 @@ func dataForClass(class string, r *sched.Rng) []byte {
 func fsAppend(st storage.Storage, client int, tag string, data []byte) fsOp {
 	op := fsOp{Client: client, Kind: "append", Tag: tag}
 	msgs := []storage.Message{{Event: "e", Data: data, SenderAddr: tag, DkgRoundID: "r"}}
+	if h := oracle.HashN(tag, 4); h == 0 {
+		// the caller fills in an identifier of its own, in a spelling of its own (upper case as printed by
+		// uuidgen on some systems, braces, a urn prefix, no dashes, padding): whatever identifier the entry
+		// ends up with on the board is the one that ignore lists by id name later
+		u := oracle.Hash("id|"+tag) + oracle.Hash("id2|"+tag)
+		canon := u[0:8] + "-" + u[8:12] + "-4" + u[13:16] + "-a" + u[17:20] + "-" + u[20:32]
+		msgs[0].ID = []string{strings.ToUpper(canon), "{" + canon + "}", "urn:uuid:" + canon, strings.ReplaceAll(canon, "-", ""), " " + canon + " "}[oracle.HashN("sp|"+tag, 5)]
+	}
 	op.Call = monoNow()
 	err := st.Send(msgs...)
 	op.Ret = monoNow()
@@ -443,7 +451,7 @@ func judgeLogStructure(c *Ctx, path, lock string, ops []fsOp, wit map[string]int
 }
 
 func checkC16(c *Ctx) {
-	c.Rule = "many short concurrent histories on the real FileStorage: W in {1,2,4,8,16} writer goroutines with separate handles plus readers, and W separate OS processes (verifd worker fswriter, CLOCK_MONOTONIC timestamps; some relying on the default lock file, each with a TMPDIR of its own); message sizes empty, 10 B, 4 KiB, JSON line just below/above 64 KiB, 200 KiB, line just below 1 MiB; after quiescence a structural check through a fresh handle and the raw file (exactly-once, offset == position, earlier reads are runs of the final log, suffix reads, ignore lists by id and offset) and a porcupine linearizability check of the recorded history against the sequential log model. Ignore lists are built by 1-4 IgnoreMessages calls mixing ids and offsets. Read offsets beyond the end of the log, up to 2^64-1, must yield nothing. A writer process whose board file cannot grow beyond a limit: every acknowledged append stands in the file. distinct = distinct observed interleavings (order of appends/reads by call time) over the (mode, writers, size class) configurations"
+	c.Rule = "many short concurrent histories on the real FileStorage: W in {1,2,4,8,16} writer goroutines with separate handles plus readers, and W separate OS processes (verifd worker fswriter, CLOCK_MONOTONIC timestamps; some relying on the default lock file, each with a TMPDIR of its own); message sizes empty, 10 B, 4 KiB, JSON line just below/above 64 KiB, 200 KiB, line just below 1 MiB; after quiescence a structural check through a fresh handle and the raw file (exactly-once, offset == position, earlier reads are runs of the final log, suffix reads, ignore lists by id and offset) and a porcupine linearizability check of the recorded history against the sequential log model. Ignore lists are built by 1-4 IgnoreMessages calls mixing ids and offsets (ids as they stand on the board; a quarter of the appends come with a caller-chosen identifier in a non-canonical UUID spelling). Read offsets beyond the end of the log, up to 2^64-1, must yield nothing. A writer process whose board file cannot grow beyond a limit: every acknowledged append stands in the file. distinct = distinct observed interleavings (order of appends/reads by call time) over the (mode, writers, size class) configurations"
 	c.Assumptions = []string{"porcupine v1.3.0 as linearizability checker (60 s cap => inconclusive)", "timestamps from CLOCK_MONOTONIC, shared by all processes of the machine"}
 	type cfg struct {
 		mode    string
